@@ -34,6 +34,7 @@ RULES = {
     "C02.HANDOFF": "completion: take the outputs exactly once, reset every slot state, positional result",
     "C02.ZIP": "zip: write-before-state on Some; row taken only under all_ready with states reset; None edge takes nothing; destructor drops Ready slots",
     "C02.RACEOK": "race_ok: Err => slot write, counter+1, state Ready on the same index; aggregate taken only when all failed, states reset; destructor drops Ready slots",
+    "C02.POLLDROP": "an output slot dropped in place inside a poll body is marked not-Ready before the poll returns (else the destructor drops it again)",
     "C02.WHO": "unsafe storage operations only in the owning poll/drop bodies, constructors and utils wrappers",
     "C02.OWN": "every child-typed field is an owned container (no Rc/Arc/raw pointer/reference between combinator and child); ADTs with ManuallyDrop/MaybeUninit storage have a destructor",
     "C02.UTIL": "utils wrappers (FutureArray/FutureVec::drop, Output*::write/drop/take, indexes helpers) act on the index they are given",
@@ -55,6 +56,9 @@ def run(ctx):
         for u in families.passthrough_units(M, ("race_ok",)):
             if u.container != "vec":
                 rule_raceok(ctx, M, u)
+        for u in families.subwaker_units(M, ("join", "try_join", "zip"), groups=False) + [
+                x for x in families.passthrough_units(M, ("race_ok",)) if x.container != "vec"]:
+            rule_polldrop(ctx, M, u)
         rule_who(ctx, M)
         rule_own(ctx, M)
         rule_util(ctx, M)
@@ -344,6 +348,13 @@ def rule_drop(ctx, M, u):
                 ok1, _ = di.must_reach([t for _, t in re], [od[0].block], di.return_blocks)
                 ok2, _ = di.must_reach([t for _, t in pe], [cd[0].block], di.return_blocks)
                 ok = ok1 and ok2
+            # the two state tests are evaluated on every path through the destructor (no early return / flag skips them)
+            if ok:
+                for s, idx, base in scan.state_tests(di, "is_ready") + scan.state_tests(di, "is_pending"):
+                    if scan.const_of(idx) == k and base == scan.self_field("state"):
+                        r_ = di.body.reach([0], avoid_blocks=[s.block], stop_blocks=di.return_blocks)
+                        if any(x in r_ for x in di.return_blocks):
+                            ok = False
             ctx.check(ok, "C02.DROP", where, "slot %d: output dropped iff Ready, child dropped iff Pending" % k,
                       site=(od[0].where if od else m.drop.span), sample={"out_drop": [s.where for s in od], "child_drop": [s.where for s in cd]})
     else:
@@ -362,6 +373,13 @@ def rule_drop(ctx, M, u):
         for s in od + cd:
             lp = di.body.innermost_loop(s.block)
             ctx.check(lp is not None, "C02.DROP", where, "%s::drop is applied to every listed index (loop)" % s.callee.owner, site=s.where)
+            # ... and that loop runs on every path through the destructor (no early return, no flag that skips it)
+            r = scan.loop_item_root(s.arg(1))
+            nb = r[3] if r is not None else None
+            if nb is not None:
+                r_ = di.body.reach([0], avoid_blocks=[nb], stop_blocks=di.return_blocks)
+                ctx.check(not any(x in r_ for x in di.return_blocks), "C02.DROP", where,
+                          "the %s::drop loop is reached on every path through the destructor" % s.callee.owner, site=s.where)
 
 
 def rule_zip(ctx, M, u):
@@ -445,6 +463,8 @@ def rule_zip(ctx, M, u):
             ok = len(od) == 1 and re and di.guarded_by(od[0].block, re)
             if ok:
                 ok, _ = di.must_reach([t for _, t in re], [od[0].block], di.return_blocks)
+            if ok:
+                ok = always_reached(di, [s.block for s, idx, base in scan.state_tests(di, "is_ready") if scan.const_of(idx) == k])
             ctx.check(ok, "C02.ZIP", m.drop.def_, "slot %d: buffered item dropped iff Ready" % k, site=m.drop.span)
     else:
         ok = len(ods) == 1
@@ -459,7 +479,7 @@ def rule_zip(ctx, M, u):
                     re = di.outcome_edges(t, True)
                     it = r1[2][0]
                     full = it[0] == "call" and it[1][1] == "zip" and it[2][0][0] == "call" and it[2][0][1][1] == "iter_mut" and it[2][1][0] == "call" and it[2][1][1][1] == "iter_mut"
-                    ok = bool(re) and di.guarded_by(s.block, re) and full
+                    ok = bool(re) and di.guarded_by(s.block, re) and full and always_reached(di, [r1[3]])
         ctx.check(ok, "C02.ZIP", m.drop.def_, "buffered items dropped exactly for Ready slots (zipped state/output loop)", site=m.drop.span)
 
 
@@ -531,7 +551,48 @@ def rule_raceok(ctx, M, u):
         ctx.fail("C02.RACEOK", u.where, "race_ok has no destructor for stored errors", site=u.body.span)
         return
     ok = destructor_filter_ready(M, m)
-    ctx.check(ok, "C02.RACEOK", m.drop.def_, "stored errors dropped exactly for Ready slots", site=m.drop.span)
+    if ok:
+        di_ = m.drop_info
+        ok = always_reached(di_, [s.block for s in di_.sites if s.callee.name == "filter"][:1])
+    ctx.check(ok, "C02.RACEOK", m.drop.def_, "stored errors dropped exactly for Ready slots, on every path through the destructor", site=m.drop.span)
+
+
+IN_PLACE_DROPS = {("MaybeUninit", "assume_init_drop"), ("MaybeUninit", "assume_init_read"), ("OutputArray", "drop"), ("OutputVec", "drop"),
+                  ("core::ptr::drop_in_place", "drop_in_place"), ("ptr", "drop_in_place"), ("ptr", "read"), ("core::ptr::read", "read")}
+
+
+def rule_polldrop(ctx, M, u):
+    """Slots are dropped in place only by the destructor; if a poll body does it, the slot's state
+    must stop saying Ready before the poll returns."""
+    bi = u.bi
+    bodies = [(bi, u.body)]
+    for b in M.F.bodies:
+        if b.root == u.body.def_ and b.def_ != u.body.def_:
+            bodies.append((M.info(b), b))
+    n = 0
+    for xi, xb in bodies:
+        for s in xi.sites:
+            if s.key not in IN_PLACE_DROPS:
+                continue
+            n += 1
+            if xb.def_ != u.body.def_:
+                ctx.fail("C02.POLLDROP", u.where, "an output slot is dropped in place inside a closure of the poll body", site=s.where)
+                continue
+            resets = [b for b, variant, idx, base, w in scan.state_sets(bi) if variant in ("None", "Pending")] + [
+                b for b, v, w in scan.state_set_all(bi)]
+            ok, bad = bi.must_reach([s.target], resets, bi.return_blocks)
+            ctx.check(bool(resets) and ok, "C02.POLLDROP", u.where,
+                      "slot dropped in place in poll is marked not-Ready before returning", site=s.where, path=common.fmt_blocks(bi, bad))
+    if n == 0:
+        ctx.ok("C02.POLLDROP", u.where, "no in-place drop of an output slot in the poll body (0 sites; destructor-only)", nontrivial=False)
+
+
+def always_reached(bi, blocks):
+    """one of `blocks` is passed on every path from entry to a return (no early return / flag skips it)"""
+    if not blocks:
+        return False
+    r = bi.body.reach([0], avoid_blocks=blocks, stop_blocks=bi.return_blocks)
+    return not any(x in r for x in bi.return_blocks)
 
 
 def destructor_filter_ready(M, m):
